@@ -273,8 +273,14 @@ class SeqFlow(object):
         for c in calls_in(node):
             events, may_raise = self.classify(c)
             if may_raise:
-                exc = may_raise if isinstance(may_raise, str) else 'Exception'
-                for i in range(len(events) + 1):
+                exc = 'Exception'
+                start = 0
+                if may_raise == 'after-first' and events:
+                    # e.g. a listener raising: the event has started firing
+                    start = 1
+                elif isinstance(may_raise, str) and may_raise != 'after-first':
+                    exc = may_raise
+                for i in range(start, len(events) + 1):
                     self._merge(out, (RAISE, exc),
                                 {q + tuple(events[:i]) for q in cur})
             if events:
